@@ -5,7 +5,9 @@ i=0
 while read h prop what; do
   i=$((i+1)); id=R$(printf %02d $i)-$prop
   mkdir -p seeded/$id
-  git -C /repo diff $h $h~1 > seeded/$id/patch.diff
+  # patches that no longer apply to HEAD (later fixes touched the same lines) were rebased by hand and are kept
+  if [ ! -f seeded/$id/patch.diff ] || git -C /repo apply --check /verif/seeded/$id/patch.diff 2>/dev/null; then :; fi
+  if ! { [ -f seeded/$id/patch.diff ] && git -C /repo apply --check /verif/seeded/$id/patch.diff 2>/dev/null; }; then git -C /repo diff $h $h~1 > seeded/$id/patch.diff; fi
   python3 - "$id" "$prop" "$h" "$what" <<'PY'
 import json,sys
 id,prop,h,what=sys.argv[1:5]
